@@ -1,4 +1,3 @@
-from math import ceil
 from typing import Callable
 from typing import Optional
 from typing import Tuple
@@ -13,6 +12,7 @@ from pfhedge._utils.typing import TensorOrScalar
 from pfhedge.stochastic import generate_merton_jump
 
 from .base import BasePrimary
+from .base import n_time_steps
 
 
 class MertonJumpStock(BasePrimary):
@@ -150,7 +150,7 @@ class MertonJumpStock(BasePrimary):
 
         output = generate_merton_jump(
             n_paths=n_paths,
-            n_steps=ceil(time_horizon / self.dt + 1),
+            n_steps=n_time_steps(time_horizon, self.dt),
             init_state=init_state,
             sigma=self.sigma,
             mu=self.mu,
